@@ -3,6 +3,7 @@ package core
 import (
 	"fmt"
 	"go/ast"
+	"go/parser"
 	"go/token"
 	"go/types"
 	"sort"
@@ -29,12 +30,19 @@ import (
 // who-may-write rules do not see a second, dead copy of the code.
 
 type inlineHelper struct {
-	obj  *types.Func
-	decl *ast.FuncDecl
-	pkg  *packages.Package
-	file *ast.File
-	uses int // references seen in the package
-	done int // references expanded
+	obj   types.Object // *types.Func, or the *types.Var a local closure is bound to
+	name  string       // display name
+	sig   *types.Signature
+	recv  *ast.FieldList
+	ftype *ast.FuncType
+	body  *ast.BlockStmt
+	lit   *ast.FuncLit // non-nil for a local closure `name := func(…) {…}`
+	from  token.Pos    // extent of the declaration (blanked when every use was expanded)
+	to    token.Pos
+	pkg   *packages.Package
+	file  *ast.File
+	uses  int // references seen in the package
+	done  int // references expanded
 }
 
 type splice struct {
@@ -58,7 +66,7 @@ func inlineRound(pkgs []*packages.Package, readFile func(abs string) ([]byte, er
 		if p.Types == nil || p.TypesInfo == nil || IsMockPkg(p.PkgPath) || !strings.HasPrefix(p.PkgPath, Mod) {
 			continue
 		}
-		helpers := map[*types.Func]*inlineHelper{}
+		helpers := map[types.Object]*inlineHelper{}
 		for _, f := range p.Syntax {
 			for _, d := range f.Decls {
 				fd, ok := d.(*ast.FuncDecl)
@@ -69,24 +77,75 @@ func inlineRound(pkgs []*packages.Package, readFile func(abs string) ([]byte, er
 				if obj == nil || IsPinnedFunc(funcKey(obj)) || fd.Name.Name == "init" || fd.Name.Name == "main" {
 					continue
 				}
-				if why := notInlinable(fd, obj); why != "" {
+				if why := notInlinable(fd.Body, obj.Type().(*types.Signature)); why != "" {
 					if why != "generic" {
 						log = append(log, fmt.Sprintf("inline: %s left as written: %s", funcKey(obj), why))
 					}
 					continue
 				}
-				helpers[obj] = &inlineHelper{obj: obj, decl: fd, pkg: p, file: f}
+				from := fd.Pos()
+				if fd.Doc != nil {
+					from = fd.Doc.Pos()
+				}
+				helpers[obj] = &inlineHelper{obj: obj, name: funcKey(obj), sig: obj.Type().(*types.Signature), recv: fd.Recv, ftype: fd.Type, body: fd.Body,
+					from: from, to: fd.End(), pkg: p, file: f}
 			}
+		}
+		// local closures bound once to a name and only ever called through it: `get := func(n uint64) (*T, error) {…}`
+		for _, f := range p.Syntax {
+			ast.Inspect(f, func(n ast.Node) bool {
+				as, ok := n.(*ast.AssignStmt)
+				if !ok || as.Tok != token.DEFINE || len(as.Lhs) != 1 || len(as.Rhs) != 1 {
+					return true
+				}
+				id, ok := as.Lhs[0].(*ast.Ident)
+				lit, ok2 := as.Rhs[0].(*ast.FuncLit)
+				if !ok || !ok2 || id.Name == "_" {
+					return true
+				}
+				v, _ := p.TypesInfo.Defs[id].(*types.Var)
+				if v == nil {
+					return true
+				}
+				sig, _ := v.Type().(*types.Signature)
+				if sig == nil {
+					return true
+				}
+				if why := notInlinable(lit.Body, sig); why != "" {
+					log = append(log, fmt.Sprintf("inline: local closure %s left as written: %s", id.Name, why))
+					return true
+				}
+				helpers[v] = &inlineHelper{obj: v, name: "local closure " + id.Name, sig: sig, ftype: lit.Type, body: lit.Body, lit: lit,
+					from: as.Pos(), to: as.End(), pkg: p, file: f}
+				return true
+			})
 		}
 		if len(helpers) == 0 {
 			continue
 		}
-		for id, o := range p.TypesInfo.Uses {
-			_ = id
-			if fn, ok := o.(*types.Func); ok {
-				if h := helpers[fn]; h != nil {
-					h.uses++
+		// a closure variable that is assigned again, passed around or otherwise used as a value is not expanded
+		callees := map[*ast.Ident]bool{}
+		for _, f := range p.Syntax {
+			ast.Inspect(f, func(n ast.Node) bool {
+				if call, ok := n.(*ast.CallExpr); ok {
+					if id, ok := call.Fun.(*ast.Ident); ok {
+						callees[id] = true
+					}
 				}
+				return true
+			})
+		}
+		for id, o := range p.TypesInfo.Uses {
+			if h := helpers[o]; h != nil {
+				h.uses++
+				if h.lit != nil && !callees[id] {
+					h.uses += 1 << 20 // used as a value: never "fully expanded", and refuse below
+				}
+			}
+		}
+		for o, h := range helpers {
+			if h.lit != nil && h.uses >= 1<<20 {
+				delete(helpers, o)
 			}
 		}
 		splices := map[*ast.File][]splice{}
@@ -116,11 +175,8 @@ func inlineRound(pkgs []*packages.Package, readFile func(abs string) ([]byte, er
 		for _, h := range helpers {
 			if h.done > 0 && h.done == h.uses {
 				tf := p.Fset.File(h.file.Pos())
-				from := tf.Offset(h.decl.Pos())
-				if h.decl.Doc != nil {
-					from = tf.Offset(h.decl.Doc.Pos())
-				}
-				to := tf.Offset(h.decl.End())
+				from := tf.Offset(h.from)
+				to := tf.Offset(h.to)
 				fname := p.Fset.Position(h.file.Pos()).Filename
 				src, err := readFile(fname)
 				if err != nil {
@@ -128,9 +184,9 @@ func inlineRound(pkgs []*packages.Package, readFile func(abs string) ([]byte, er
 				}
 				blank := strings.Repeat("\n", strings.Count(string(src[from:to]), "\n"))
 				splices[h.file] = append(splices[h.file], splice{from, to, blank})
-				log = append(log, fmt.Sprintf("inline: %s expanded at its %d call site(s); declaration dropped from the analysed program", funcKey(h.obj), h.done))
+				log = append(log, fmt.Sprintf("inline: %s expanded at its %d call site(s); declaration dropped from the analysed program", h.name, h.done))
 			} else if h.done > 0 {
-				log = append(log, fmt.Sprintf("inline: %s expanded at %d of %d uses; declaration kept", funcKey(h.obj), h.done, h.uses))
+				log = append(log, fmt.Sprintf("inline: %s expanded at %d of %d uses; declaration kept", h.name, h.done, h.uses))
 			}
 		}
 		for f, sp := range splices {
@@ -170,14 +226,13 @@ func inlineRound(pkgs []*packages.Package, readFile func(abs string) ([]byte, er
 				// offsets before the first splice are unchanged: the package clause precedes every declaration
 				text = text[:at] + "; " + strings.Join(imps, "; ") + text[at:]
 			}
-			out[fname] = []byte(text)
+			out[fname] = []byte(blankUnusedImports(text, f, p))
 		}
 	}
 	return out, log
 }
 
-func notInlinable(fd *ast.FuncDecl, obj *types.Func) string {
-	sig := obj.Type().(*types.Signature)
+func notInlinable(body *ast.BlockStmt, sig *types.Signature) string {
 	if sig.Variadic() {
 		return "variadic"
 	}
@@ -185,12 +240,12 @@ func notInlinable(fd *ast.FuncDecl, obj *types.Func) string {
 		return "generic"
 	}
 	why := ""
-	ast.Inspect(fd.Body, func(n ast.Node) bool {
+	ast.Inspect(body, func(n ast.Node) bool {
 		switch x := n.(type) {
 		case *ast.FuncLit:
 			return false
 		case *ast.DeferStmt:
-			if !simpleDefer(fd, x) {
+			if !simpleDefer(body, x) {
 				why = "uses a defer that cannot be moved to the end of the expansion"
 			}
 		case *ast.LabeledStmt:
@@ -211,9 +266,9 @@ func notInlinable(fd *ast.FuncDecl, obj *types.Func) string {
 
 // simpleDefer: an unconditional top-level `defer x.y.M()` (no arguments, receiver a selector chain of identifiers) that
 // precedes every return of the helper: running it after the expanded body is the same program.
-func simpleDefer(fd *ast.FuncDecl, d *ast.DeferStmt) bool {
+func simpleDefer(body *ast.BlockStmt, d *ast.DeferStmt) bool {
 	top := false
-	for _, s := range fd.Body.List {
+	for _, s := range body.List {
 		if s == ast.Stmt(d) {
 			top = true
 		}
@@ -235,7 +290,7 @@ func simpleDefer(fd *ast.FuncDecl, d *ast.DeferStmt) bool {
 		return false
 	}
 	ok := true
-	ast.Inspect(fd.Body, func(n ast.Node) bool {
+	ast.Inspect(body, func(n ast.Node) bool {
 		switch x := n.(type) {
 		case *ast.FuncLit:
 			return false
@@ -254,7 +309,7 @@ type inliner struct {
 	f       *ast.File
 	tf      *token.File
 	src     []byte
-	helpers map[*types.Func]*inlineHelper
+	helpers map[types.Object]*inlineHelper
 	caller  *types.Func
 	counter *int
 	readFile func(string) ([]byte, error)
@@ -278,13 +333,16 @@ func (ix *inliner) helperOf(call *ast.CallExpr) *inlineHelper {
 	default:
 		return nil
 	}
-	fn, _ := ix.p.TypesInfo.Uses[id].(*types.Func)
-	if fn == nil {
+	o := ix.p.TypesInfo.Uses[id]
+	if o == nil {
 		return nil
 	}
-	h := ix.helpers[fn]
-	if h == nil || fn == ix.caller {
+	h := ix.helpers[o]
+	if h == nil || o == types.Object(ix.caller) {
 		return nil
+	}
+	if h.lit != nil && h.lit.Pos() <= call.Pos() && call.End() <= h.lit.End() {
+		return nil // a recursive closure
 	}
 	return h
 }
@@ -316,6 +374,15 @@ func (ix *inliner) block(list []ast.Stmt) {
 			ix.clauses(x.Body)
 		case *ast.LabeledStmt:
 			ix.block([]ast.Stmt{x.Stmt})
+		case *ast.ExprStmt, *ast.AssignStmt, *ast.ReturnStmt, *ast.GoStmt, *ast.DeferStmt, *ast.DeclStmt, *ast.SendStmt:
+			// function literals inside a simple statement (`g.Go(func() error { … })`): their bodies are statement lists too
+			ast.Inspect(s, func(n ast.Node) bool {
+				if lit, ok := n.(*ast.FuncLit); ok {
+					ix.block(lit.Body.List)
+					return false
+				}
+				return true
+			})
 		}
 	}
 }
@@ -359,7 +426,7 @@ func (ix *inliner) stmt(s ast.Stmt) bool {
 		if len(x.Results) == 1 {
 			if call, ok := x.Results[0].(*ast.CallExpr); ok {
 				if h := ix.helperOf(call); h != nil {
-					n := h.obj.Type().(*types.Signature).Results().Len()
+					n := h.sig.Results().Len()
 					return ix.rewrite(s, s.Pos(), s.End(), call, h, &resultUse{n: n}, "", "return ", "")
 				}
 			}
@@ -425,7 +492,7 @@ func (ix *inliner) hoist(s ast.Stmt, e ast.Expr) bool {
 				walk(sel.X, cond)
 			}
 			if found == nil && !cond {
-				if hh := ix.helperOf(x); hh != nil && hh.obj.Type().(*types.Signature).Results().Len() == 1 {
+				if hh := ix.helperOf(x); hh != nil && hh.sig.Results().Len() == 1 {
 					found, h = x, hh
 				}
 			}
@@ -475,14 +542,14 @@ func (ix *inliner) emit(h *inlineHelper, text string, from, to token.Pos) {
 	text += fmt.Sprintf("/*line :%d:%d*/", end.Line, end.Column)
 	ix.out = append(ix.out, splice{ix.tf.Offset(from), ix.tf.Offset(to), text})
 	h.done++
-	ix.log = append(ix.log, fmt.Sprintf("inline: %s expanded in %s", funcKey(h.obj), funcKey(ix.caller)))
+	ix.log = append(ix.log, fmt.Sprintf("inline: %s expanded in %s", h.name, funcKey(ix.caller)))
 }
 
 // rewrite replaces statement text [from,to) by prefix + expansion + "; " + assign + "r0, r1" + suffix.
 func (ix *inliner) rewrite(s ast.Stmt, from, to token.Pos, call *ast.CallExpr, h *inlineHelper, use *resultUse, prefix, assign, suffix string) bool {
 	n := 0
 	if use != nil {
-		n = h.obj.Type().(*types.Signature).Results().Len()
+		n = h.sig.Results().Len()
 		if use.n != n && !(assign == "return ") {
 			return false
 		}
@@ -508,13 +575,13 @@ func (ix *inliner) rewrite(s ast.Stmt, from, to token.Pos, call *ast.CallExpr, h
 	text += fmt.Sprintf("/*line :%d:%d*/", end.Line, end.Column)
 	ix.out = append(ix.out, splice{ix.tf.Offset(from), ix.tf.Offset(to), text})
 	h.done++
-	ix.log = append(ix.log, fmt.Sprintf("inline: %s expanded in %s", funcKey(h.obj), funcKey(ix.caller)))
+	ix.log = append(ix.log, fmt.Sprintf("inline: %s expanded in %s", h.name, funcKey(ix.caller)))
 	return true
 }
 
 // expansion builds `var temps…; L: switch { default: <bindings>; <body> }`.
 func (ix *inliner) expansion(call *ast.CallExpr, h *inlineHelper, nres int, temps []string) (string, bool) {
-	sig := h.obj.Type().(*types.Signature)
+	sig := h.sig
 	if len(call.Args) != sig.Params().Len() {
 		return "", false
 	}
@@ -544,7 +611,7 @@ func (ix *inliner) expansion(call *ast.CallExpr, h *inlineHelper, nres int, temp
 	sb.WriteString(label + ": switch { default: ")
 	// bindings: receiver and parameters
 	var names, vals []string
-	if sig.Recv() != nil {
+	if sig.Recv() != nil && h.lit == nil {
 		sel, ok := call.Fun.(*ast.SelectorExpr)
 		if !ok {
 			return "", false
@@ -563,7 +630,7 @@ func (ix *inliner) expansion(call *ast.CallExpr, h *inlineHelper, nres int, temp
 			x = "*(" + x + ")"
 		}
 		name := "_"
-		if r := h.decl.Recv; r != nil && len(r.List) == 1 && len(r.List[0].Names) == 1 {
+		if r := h.recv; r != nil && len(r.List) == 1 && len(r.List[0].Names) == 1 {
 			name = r.List[0].Names[0].Name
 		}
 		names, vals = append(names, name), append(vals, x)
@@ -571,7 +638,7 @@ func (ix *inliner) expansion(call *ast.CallExpr, h *inlineHelper, nres int, temp
 		return "", false // pkg.F from another package
 	}
 	k := 0
-	for _, fl := range h.decl.Type.Params.List {
+	for _, fl := range h.ftype.Params.List {
 		if len(fl.Names) == 0 {
 			names, vals = append(names, "_"), append(vals, ix.text(call.Args[k].Pos(), call.Args[k].End()))
 			k++
@@ -602,8 +669,8 @@ func (ix *inliner) expansion(call *ast.CallExpr, h *inlineHelper, nres int, temp
 	}
 	// named results
 	var resNames []string
-	if h.decl.Type.Results != nil {
-		for _, fl := range h.decl.Type.Results.List {
+	if h.ftype.Results != nil {
+		for _, fl := range h.ftype.Results.List {
 			for _, nm := range fl.Names {
 				resNames = append(resNames, nm.Name)
 			}
@@ -622,7 +689,7 @@ func (ix *inliner) expansion(call *ast.CallExpr, h *inlineHelper, nres int, temp
 	// capture check and package-name fixes
 	fixes, ok := ix.captureFixes(call.Pos(), h, names, resNames)
 	if !ok {
-		ix.log = append(ix.log, fmt.Sprintf("inline: %s left as written in %s: a package-level name it uses is shadowed at the call site", funcKey(h.obj), funcKey(ix.caller)))
+		ix.log = append(ix.log, fmt.Sprintf("inline: %s left as written in %s: a package-level name it uses is shadowed at the call site", h.name, funcKey(ix.caller)))
 		return "", false
 	}
 	// body with returns rewritten
@@ -635,7 +702,7 @@ func (ix *inliner) expansion(call *ast.CallExpr, h *inlineHelper, nres int, temp
 		reps = append(reps, rep{htf.Offset(fx.id.Pos()), htf.Offset(fx.id.End()), fx.name})
 	}
 	var deferred []string
-	ast.Inspect(h.decl.Body, func(n ast.Node) bool {
+	ast.Inspect(h.body, func(n ast.Node) bool {
 		switch x := n.(type) {
 		case *ast.FuncLit:
 			return false
@@ -677,8 +744,8 @@ func (ix *inliner) expansion(call *ast.CallExpr, h *inlineHelper, nres int, temp
 			return "", false
 		}
 	}
-	bFrom, bTo := htf.Offset(h.decl.Body.Lbrace)+1, htf.Offset(h.decl.Body.Rbrace)
-	bp := htf.Position(h.decl.Body.Lbrace + 1)
+	bFrom, bTo := htf.Offset(h.body.Lbrace)+1, htf.Offset(h.body.Rbrace)
+	bp := htf.Position(h.body.Lbrace + 1)
 	fmt.Fprintf(&sb, "/*line %s:%d:%d*/", hfname, bp.Line, bp.Column)
 	pos := bFrom
 	for _, r := range reps {
@@ -752,7 +819,7 @@ func (ix *inliner) captureFixes(at token.Pos, h *inlineHelper, params, results [
 	qual := ix.qualifier()
 	var fixes []identFix
 	ok := true
-	ast.Inspect(h.decl.Body, func(n ast.Node) bool {
+	ast.Inspect(h.body, func(n ast.Node) bool {
 		id, isID := n.(*ast.Ident)
 		if !isID {
 			return true
@@ -783,7 +850,11 @@ func (ix *inliner) captureFixes(at token.Pos, h *inlineHelper, params, results [
 				fixes = append(fixes, identFix{id, want})
 			}
 		default:
-			if obj.Parent() == h.pkg.Types.Scope() {
+			outsideLit := h.lit != nil && (obj.Pos() < h.lit.Pos() || obj.Pos() >= h.lit.End()) && obj.Pkg() == h.pkg.Types
+			if _, isField := obj.(*types.Var); isField && obj.(*types.Var).IsField() {
+				return true
+			}
+			if obj.Parent() == h.pkg.Types.Scope() || outsideLit && obj.Parent() != nil {
 				if _, cur := scope.LookupParent(id.Name, at); cur != obj {
 					ok = false
 				}
@@ -792,4 +863,55 @@ func (ix *inliner) captureFixes(at token.Pos, h *inlineHelper, params, results [
 		return true
 	})
 	return fixes, ok
+}
+
+// blankUnusedImports: expanding a helper into another file (or dropping its declaration) can leave an import of the
+// file without a user, which does not compile. Such imports are turned into blank imports.
+func blankUnusedImports(text string, orig *ast.File, p *packages.Package) string {
+	fset := token.NewFileSet()
+	nf, err := parser.ParseFile(fset, "x.go", text, parser.SkipObjectResolution)
+	if err != nil {
+		return text
+	}
+	used := map[string]bool{}
+	ast.Inspect(nf, func(n ast.Node) bool {
+		if sel, ok := n.(*ast.SelectorExpr); ok {
+			if id, ok := sel.X.(*ast.Ident); ok {
+				used[id.Name] = true
+			}
+		}
+		return true
+	})
+	nameOf := map[string]string{} // import path -> package name as seen by the type checker
+	for _, is := range orig.Imports {
+		if pn := p.TypesInfo.PkgNameOf(is); pn != nil {
+			nameOf[strings.Trim(is.Path.Value, "\"")] = pn.Name()
+		}
+	}
+	type sp struct {
+		from, to int
+		text     string
+	}
+	var sps []sp
+	tf := fset.File(nf.Pos())
+	for _, is := range nf.Imports {
+		path := strings.Trim(is.Path.Value, "\"")
+		name := nameOf[path]
+		if is.Name != nil {
+			name = is.Name.Name
+		}
+		if name == "" || name == "_" || name == "." || used[name] {
+			continue
+		}
+		if is.Name != nil {
+			sps = append(sps, sp{tf.Offset(is.Name.Pos()), tf.Offset(is.Name.End()), "_"})
+		} else {
+			sps = append(sps, sp{tf.Offset(is.Path.Pos()), tf.Offset(is.Path.Pos()), "_ "})
+		}
+	}
+	sort.Slice(sps, func(i, j int) bool { return sps[i].from > sps[j].from })
+	for _, x := range sps {
+		text = text[:x.from] + x.text + text[x.to:]
+	}
+	return text
 }
